@@ -33,6 +33,8 @@ CFG = {
           "-D" + GUARD, "-Wno-deprecated-declarations"],
     "R": ["-std=gnu++17", "-O2", "-march=native", "-DNDEBUG", "-UDEBUG", "-D" + GUARD,
           "-Wno-deprecated-declarations"],
+    # T: ThreadSanitizer (use with cxx="clang++-14")
+    "T": ["-std=gnu++17", "-O1", "-g", "-DNDEBUG", "-UDEBUG", "-fsanitize=thread", "-D" + GUARD, "-Wno-deprecated-declarations", "-w"],
     # plain: no sanitizers, moderate optimisation (fast to build; for heavy template harnesses)
     "P": ["-std=gnu++17", "-O1", "-DNDEBUG", "-UDEBUG", "-D" + GUARD,
           "-Wno-deprecated-declarations"],
